@@ -94,9 +94,9 @@ func (p *proc) text() string {
 	defer p.mu.Unlock()
 	return p.out.String()
 }
-func startWatch(env *core.Env, dir, cfg, home string) (*proc, error) {
+func startWatch(env *core.Env, dir, cfg, home string, more ...string) (*proc, error) {
 	p := &proc{}
-	p.cmd = exec.Command(env.Taskctl, "-d", "-c", cfg, "watch", "w")
+	p.cmd = exec.Command(env.Taskctl, append([]string{"-d", "-c", cfg, "watch", "w"}, more...)...)
 	p.cmd.Dir = dir
 	for _, kv := range os.Environ() {
 		if !strings.HasPrefix(kv, "TASKCTL_") && !strings.HasPrefix(kv, "HOME=") {
@@ -116,7 +116,7 @@ func (p *proc) stop() {
 }
 
 var reWaiting = regexp.MustCompile(`is waiting for events in ([^"\n]*)"`)
-var reEvent = regexp.MustCompile(`event \\"([A-Z|]+)\\" in file \\"([^"\\]*)\\"`)
+var reEvent = regexp.MustCompile(`msg="(\w+): event \\"([A-Z|]+)\\" in file \\"([^"\\]*)\\"`)
 
 // waitStable waits until the process output has not grown for d (or limit passed).
 func (p *proc) waitStable(d, limit time.Duration) {
@@ -335,13 +335,28 @@ func Check(env *core.Env, rep *core.Report) *core.Result {
 		if slow {
 			pre = "sleep 1.7; "
 		}
-		fmt.Fprintf(&y, "tasks:\n  t:\n    command: ['%s/bin/echo \"RUN $EventName $EventPath\" >> %s']\nwatchers:\n  w:\n    task: t\n    watch: [\"*.txt\"]\n    exclude: [\"ex.txt\"]\n", pre, logf)
+		// every third scenario: the watcher's task has two variations (each run executes both);
+		// every third: a second watcher (its own task, *.dat) is served by the same command
+		withVars, twoWatchers := i%3 == 1, i%3 == 2
+		logf2 := logf + "2"
+		vv, varDef := "", ""
+		if withVars {
+			vv, varDef = "$VV", "    variations:\n      - {VV: a}\n      - {VV: b}\n"
+		}
+		fmt.Fprintf(&y, "tasks:\n  t:\n%s    command: ['%s/bin/echo \"RUN%s $EventName $EventPath\" >> %s']\n", varDef, pre, vv, logf)
+		fmt.Fprintf(&y, "  t2:\n    command: ['/bin/echo \"RUN2 $EventName $EventPath\" >> %s']\n", logf2)
+		y.WriteString("watchers:\n  w:\n    task: t\n    watch: [\"*.txt\"]\n    exclude: [\"ex.txt\"]\n")
 		if len(listed) > 0 {
 			fmt.Fprintf(&y, "    events: [%s]\n", strings.Join(listed, ", "))
 		}
+		y.WriteString("  w2:\n    task: t2\n    watch: [\"*.dat\"]\n")
+		var moreWatchers []string
+		if twoWatchers {
+			moreWatchers = []string{"w2"}
+		}
 		cfg := filepath.Join(cfgd, "tasks.yaml")
 		_ = ioutil.WriteFile(cfg, []byte(y.String()), 0o644)
-		p, err := startWatch(env, root, cfg, home)
+		p, err := startWatch(env, root, cfg, home, moreWatchers...)
 		if err != nil {
 			evOut[i].err = err.Error()
 			return
@@ -409,16 +424,53 @@ func Check(env *core.Env, rep *core.Report) *core.Result {
 		}
 		delivered := []rowT{}
 		for _, m := range reEvent.FindAllStringSubmatch(txt, -1) {
-			for _, t := range strings.Split(m[1], "|") {
-				delivered = append(delivered, rowT{"t": strings.ToLower(t), "p": m[2]})
+			if m[1] != "w" {
+				continue // the second watcher's events are judged below
+			}
+			for _, t := range strings.Split(m[2], "|") {
+				delivered = append(delivered, rowT{"t": strings.ToLower(t), "p": m[3]})
 			}
 		}
 		runs := []rowT{}
+		var runsB []string
 		b, _ := ioutil.ReadFile(logf)
 		for _, l := range strings.Split(string(b), "\n") {
 			f := strings.Fields(l)
-			if len(f) == 3 && f[0] == "RUN" {
+			if len(f) == 3 && (f[0] == "RUN" || f[0] == "RUNa") {
 				runs = append(runs, rowT{"name": f[1], "path": f[2]})
+			}
+			if len(f) == 3 && f[0] == "RUNb" {
+				runsB = append(runsB, f[1]+" "+f[2])
+			}
+		}
+		if withVars {
+			// every execution of the task runs its commands for each variation
+			var runsA []string
+			for _, r := range runs {
+				runsA = append(runsA, fmt.Sprint(r["name"], " ", r["path"]))
+			}
+			sort.Strings(runsA)
+			sort.Strings(runsB)
+			if strings.Join(runsA, ",") != strings.Join(runsB, ",") {
+				add("events:task-run-without-its-variations", fmt.Sprintf("the watcher's task has two variations: runs for the first %v, for the second %v", runsA, runsB), map[string]interface{}{"ops": ops, "yaml": y.String()})
+				return
+			}
+		}
+		if twoWatchers {
+			// the second watcher is served as well: it reports what it waits on, and a write to the
+			// file it selects runs its task
+			if !strings.Contains(txt, `watcher \"w2\" is waiting for events in other.dat`) {
+				add("events:second-watcher-not-started", "taskctl watch w w2: the second watcher never reported the paths it waits on", map[string]interface{}{"output": tail(txt, 1500)})
+				return
+			}
+			wrote := false
+			for _, o := range ops {
+				wrote = wrote || o == "write other.dat"
+			}
+			b2, _ := ioutil.ReadFile(logf2)
+			if wrote && !strings.Contains(string(b2), "RUN2 write other.dat") {
+				add("events:second-watcher-does-not-fire", "taskctl watch w w2: a write to the file the second watcher selects did not run its task", map[string]interface{}{"ops": ops, "log2": string(b2), "output": tail(txt, 1500)})
+				return
 			}
 		}
 		ls := listed
